@@ -75,14 +75,18 @@ Fixpoint tof_loop (interleaved : bool) (widths : list (bool * Z)) (rs : list Z)
       end
   end.
 
-(* EncodeWithColor / Encode, the code as it is now: the final value of lastRune
-   is not looked at *)
+(* EncodeWithColor / Encode.  After the loop a pending rune (interleaved mode, odd
+   number of runes) is an error: `if lastRune != nil { return nil, error }`
+   (fix commit 63bda0c). *)
 Definition tof_encode (content : list Z) (interleaved : bool) : outcome barcode :=
   if bytes_eqb content [] then Err else
   if interleaved && (go_mod (zlength content) 2 =? 1) then Err else
   let '(start, stop, widths) := tof_mode interleaved in
-  do (body, _) <- tof_loop interleaved widths (utf8_decode content) None;
-  Ok (mk1d (if interleaved then K2of5I else K2of5) content None (start ++ body ++ stop)).
+  do (body, lst) <- tof_loop interleaved widths (utf8_decode content) None;
+  match lst with
+  | Some _ => Err
+  | None => Ok (mk1d (if interleaved then K2of5I else K2of5) content None (start ++ body ++ stop))
+  end.
 
 (* AddCheckSum *)
 Fixpoint tof_cs_loop (rs : list Z) (even : bool) (sum : Z) : option Z :=
@@ -102,17 +106,4 @@ Definition tof_add_checksum (content : list Z) : outcome (list Z) :=
   match tof_cs_loop (utf8_decode content) (go_mod (zlength content) 2 =? 1) 0 with
   | None => Err
   | Some sum => Ok (content ++ utf8_encode_rune (int_to_rune (go_mod (10 - go_mod sum 10) 10)))
-  end.
-
-(* ---- NOT the code: EncodeWithColor with the one-line repair proposed in the C08
-   report (`if lastRune != nil { return error }` after the loop).  Kept here so
-   that the full-strength theorem is already proved for the repaired code. ---- *)
-Definition tof_encode_patched (content : list Z) (interleaved : bool) : outcome barcode :=
-  if bytes_eqb content [] then Err else
-  if interleaved && (go_mod (zlength content) 2 =? 1) then Err else
-  let '(start, stop, widths) := tof_mode interleaved in
-  do (body, lst) <- tof_loop interleaved widths (utf8_decode content) None;
-  match lst with
-  | Some _ => Err
-  | None => Ok (mk1d (if interleaved then K2of5I else K2of5) content None (start ++ body ++ stop))
   end.
